@@ -21,12 +21,29 @@ impl SharedLen {
     /// Gets the current length.
     #[inline(always)]
     pub fn get(&self) -> usize {
+        #[cfg(anydb_verif)]
+        {
+            let v = self.0.load(Ordering::Acquire);
+            rawdb::verif::emit(rawdb::verif::Event::Atomic {
+                name: "shared_len",
+                store: false,
+                value: v,
+            });
+            return v;
+        }
+        #[cfg(not(anydb_verif))]
         self.0.load(Ordering::Acquire)
     }
 
     /// Sets the length.
     #[inline]
     pub fn set(&self, val: usize) {
+        #[cfg(anydb_verif)]
+        rawdb::verif::emit(rawdb::verif::Event::Atomic {
+            name: "shared_len",
+            store: true,
+            value: val,
+        });
         self.0.store(val, Ordering::Release);
     }
 }
